@@ -1136,7 +1136,8 @@ impl LunarHour {
   }
 
   pub fn get_eight_char(&self) -> EightChar {
-    EIGHT_CHAR_PROVIDER.lock().unwrap().get_eight_char(self.clone())
+    // 计算过程中的panic不应使全局的八字计算接口从此不可用
+    EIGHT_CHAR_PROVIDER.lock().unwrap_or_else(|e| e.into_inner()).get_eight_char(self.clone())
   }
 
   pub fn get_nine_star(&self) -> NineStar {
